@@ -102,7 +102,7 @@ func (a Accounter) Handle(response tq.Response, request tq.Request) {
 	}
 
 	// log accounting data
-	a.sink.Printf(string(jsonLog))
+	a.sink.Printf("%s", jsonLog)
 
 	// start/stop/watchdog don't actually log anything, this is up to you
 	switch body.Flags {
